@@ -93,6 +93,26 @@ func (u *Universe) Validate() error {
 			}
 		}
 	}
+	// The rate limiter decays with the wall clock: no sum of free transaction
+	// sizes may land on the limit or closely above it.
+	var free []int
+	for _, tx := range u.Txs {
+		mf := int64(tx.VSize) * u.MinRelayFee / 1000
+		if tx.Fee < mf {
+			free = append(free, tx.VSize)
+		}
+	}
+	for mask := 1; mask < 1<<len(free); mask++ {
+		sum := 0
+		for i, v := range free {
+			if mask&(1<<i) != 0 {
+				sum += v
+			}
+		}
+		if sum >= u.FreeLimit && sum*100 < u.FreeLimit*108 {
+			return fmt.Errorf("universe %s: free transactions of %d bytes in total are within 8%% of the rate limit %d", u.Name, sum, u.FreeLimit)
+		}
+	}
 	for op := range u.WitCoins {
 		if op.Src > 0 && op.Idx == 0 {
 			return fmt.Errorf("universe %s: output 0 of a transaction cannot be a witness coin", u.Name)
@@ -114,7 +134,7 @@ func tlaBool(b bool) string {
 // Module renders the constants of the universe as a TLA+ module that extends
 // base ("Mempool" or "Mining"), plus the matching cfg text.  sizes are the
 // measured (vsize, size, weight, sigop cost) of the concrete transactions.
-func (u *Universe) Module(modName, base string, c *Concrete, cfgTail string) (tlaText, cfgText string) {
+func (u *Universe) Module(modName, base string, c *Concrete, extraDefs, cfgTail string) (tlaText, cfgText string) {
 	var sb strings.Builder
 	seq := func(name string, f func(i int) string) {
 		parts := make([]string, len(u.Txs))
@@ -157,6 +177,7 @@ func (u *Universe) Module(modName, base string, c *Concrete, cfgTail string) (tl
 		scr[i] = fmt.Sprint(t)
 	}
 	fmt.Fprintf(&sb, "U_Script == << %s >>\n", strings.Join(scr, ", "))
+	sb.WriteString(extraDefs)
 	sb.WriteString("====\n")
 
 	var cf strings.Builder
@@ -183,7 +204,7 @@ func defaults(u Universe) *Universe {
 		u.MinRelayFee = 1000
 	}
 	if u.FreeLimit == 0 {
-		u.FreeLimit = 250
+		u.FreeLimit = 275
 	}
 	if u.MaxEvict == 0 {
 		u.MaxEvict = 100
@@ -220,7 +241,7 @@ func BuiltinUniverses() []*Universe {
 				{Ins: ins(out(1, 0)), Fee: 1000},
 				{Ins: ins(fund(0)), Fee: 3100},             // = 2000+1000+minfee(100)
 				{Ins: ins(fund(0)), Fee: 3099},             // one short of the absolute fee rule
-				{Ins: ins(fund(0), fund(1)), Fee: 2400, VSize: 120}, // fee rate 20000 = t1's rate
+				{Ins: ins(fund(0), fund(1)), Fee: 4000, VSize: 200}, // fee rate 20000 = t1's rate, absolute fee sufficient
 			}}),
 		// Orphans: a chain t1 -> t2 -> t3 with a conflicting spender t4 of t1's
 		// output and an oversized orphan t5.
@@ -240,6 +261,35 @@ func BuiltinUniverses() []*Universe {
 				{Ins: ins(fund(0)), Fee: 1000},
 				{Ins: ins(out(2, 0)), Fee: 1000},
 				{Ins: ins(fund(0)), Fee: 5000},
+			}}),
+		// Free transactions and the rate limiter, an immature coinbase spend
+		// (maturity 2), a transaction spending more than its inputs.
+		defaults(Universe{Name: "free", NFund: 2, Maturity: 2, SlotParent: []int{0, 1}, MaxOrphans: 1, MaxBlockTxs: 1, Standalone: false,
+			Txs: []TxSpec{
+				{Ins: ins(fund(0)), Fee: 0},
+				{Ins: ins(fund(1)), Fee: 50, VSize: 120},
+				{Ins: ins(out(1, 0)), Fee: 0},
+				{Ins: ins(baseCB()), Fee: 1000},
+				{Ins: ins(out(2, 0)), Fee: 1000, Cls: "negfee"},
+			}}),
+		// Mining shapes: a free transaction, witness transactions (fund coin 2 and
+		// output 1 of t1 are P2WSH), a low fee rate, a dependency chain.
+		defaults(Universe{Name: "mining", NFund: 3, SlotParent: []int{0}, MaxOrphans: 0, MaxBlockTxs: 1, Standalone: false,
+			WitCoins: map[Outpoint]bool{fund(2): true, out(1, 1): true},
+			Txs: []TxSpec{
+				{Ins: ins(fund(0)), NOut: 2, Fee: 5000, VSize: 150},
+				{Ins: ins(out(1, 0)), Fee: 0},
+				{Ins: ins(out(1, 1)), Fee: 2000, VSize: 120},
+				{Ins: ins(fund(2)), Fee: 300},
+				{Ins: ins(fund(1)), Fee: 1000, Rbf: true},
+			}}),
+		// Signature operation limit: three transactions of cost 40000 each.
+		defaults(Universe{Name: "sigops", NFund: 3, SlotParent: []int{0}, MaxOrphans: 0, MaxBlockTxs: 1, Standalone: false,
+			Txs: []TxSpec{
+				{Ins: ins(fund(0)), NOut: 2, Fee: 9000, VSize: 700, SigOps: 500},
+				{Ins: ins(fund(1)), Fee: 8000, VSize: 700, SigOps: 500},
+				{Ins: ins(fund(2)), Fee: 7000, VSize: 700, SigOps: 500},
+				{Ins: ins(out(1, 1)), Fee: 1000},
 			}}),
 	}
 }
@@ -301,5 +351,9 @@ func RandomUniverse(rng *rand.Rand, name string) *Universe {
 		}
 		u.Txs = append(u.Txs, tx)
 	}
-	return defaults(u)
+	r := defaults(u)
+	for r.Validate() != nil && r.FreeLimit < 2000 {
+		r.FreeLimit += 35
+	}
+	return r
 }
